@@ -326,6 +326,160 @@ pub fn gen_program(rng: &mut Rng, thorough: bool) -> Prog {
     Prog { g0, ncells, nobj, threads }
 }
 
+/// structured programs around the weak side and the token protocol: one object; thread 0 holds the only Rc and a
+/// Weak, takes a WeakSnapshot inside a critical section, releases the Rc (count 0, try_destruct pending) and then
+/// upgrades / counts from the snapshot while the other threads run collection rounds, upgrade their own Weak, or
+/// release the last weak owner and re-create one from a WeakSnapshot (increment from zero on both counters).
+pub fn gen_weak_program(rng: &mut Rng, _thorough: bool) -> Prog {
+    let nt = 2 + rng.below(2) as usize;
+    let mut t0: Vec<Vec<i64>> = vec![];
+    // slots of thread 0: 0 = Rc(obj 1), 1 = Weak(obj 1)
+    if rng.chance(1, 3) {
+        t0.push(vec![25, 1 + rng.below(3) as i64]);
+    }
+    t0.push(vec![20]);
+    t0.push(vec![19, 1, 2]); // slot2 := Weak::snapshot
+    let variant = rng.below(6);
+    match variant {
+        0 | 1 => {
+            t0.push(vec![7, 0]); // last Rc gone: count 0, try_destruct deferred
+            t0.push(vec![18, 2, 3]); // WeakSnapshot::upgrade (token protocol of is_not_destructed)
+            if variant == 1 {
+                t0.push(vec![15, 3, 4]); // Snapshot::counted
+            }
+            t0.push(vec![21]);
+            if variant == 1 {
+                t0.push(vec![25, 2]);
+                t0.push(vec![7, 4]);
+            }
+            t0.push(vec![12, 1]);
+        }
+        2 => {
+            t0.push(vec![18, 2, 3]); // upgrade while the Rc is alive (stamp only)
+            t0.push(vec![7, 0]);
+            t0.push(vec![15, 3, 4]);
+            t0.push(vec![21]);
+            t0.push(vec![7, 4]);
+            t0.push(vec![12, 1]);
+        }
+        3 | 4 => {
+            // the weak side from zero: release the Rc and the Weak, keep only the WeakSnapshot, then counted()
+            t0.push(vec![7, 0]);
+            t0.push(vec![12, 1]);
+            t0.push(vec![17, 2, 4]); // WeakSnapshot::counted -> Weak in slot 4 (increment_weak, maybe from zero)
+            if variant == 4 {
+                t0.push(vec![18, 2, 3]);
+            }
+            t0.push(vec![21]);
+            t0.push(vec![25, 3]);
+            t0.push(vec![13, 4, 5]); // Weak::upgrade (fails once the object is destructed)
+            t0.push(vec![7, 5]);
+            t0.push(vec![12, 4]);
+        }
+        _ => {
+            t0.push(vec![21]);
+            t0.push(vec![7, 0]);
+            t0.push(vec![13, 1, 3]); // Weak::upgrade racing with the pending attempt (D6)
+            t0.push(vec![25, 2]);
+            t0.push(vec![7, 3]);
+            t0.push(vec![12, 1]);
+        }
+    }
+    t0.push(vec![25, 4]);
+    let mut threads = vec![(vec![(1u8, 1usize), (2u8, 1usize)], t0)];
+    for _ in 1..nt {
+        // slot 0 = Weak(obj 1)
+        let mut ops: Vec<Vec<i64>> = vec![];
+        for _ in 0..(1 + rng.below(3)) {
+            match rng.below(5) {
+                0 | 1 => ops.push(vec![25, 1 + rng.below(4) as i64]),
+                2 => {
+                    ops.push(vec![13, 0, 1]); // Weak::upgrade
+                    ops.push(vec![7, 1]);
+                }
+                3 => {
+                    ops.push(vec![20]);
+                    ops.push(vec![19, 0, 2]);
+                    ops.push(vec![18, 2, 3]);
+                    if rng.chance(1, 2) {
+                        ops.push(vec![15, 3, 1]);
+                    }
+                    ops.push(vec![21]);
+                    ops.push(vec![7, 1]);
+                }
+                _ => {
+                    ops.push(vec![20]);
+                    ops.push(vec![19, 0, 2]);
+                    ops.push(vec![12, 0]); // release this thread's Weak ...
+                    ops.push(vec![17, 2, 0]); // ... and re-create it from the snapshot
+                    ops.push(vec![21]);
+                }
+            }
+        }
+        ops.push(vec![12, 0]);
+        ops.push(vec![25, 3]);
+        threads.push((vec![(2u8, 1usize)], ops));
+    }
+    Prog { g0: rng.below(20) as usize, ncells: 0, nobj: 1, threads }
+}
+
+/// structured programs around the bulk constructors (C10): new_many / new_many_iter with a prefix consumed, then
+/// abort (inside a critical section) or drop of the iterator, weak_many, and release of the owners in random order,
+/// with collection rounds in between and a second thread doing rounds.
+pub fn gen_bulk_program(rng: &mut Rng, _thorough: bool) -> Prog {
+    let mut t0: Vec<Vec<i64>> = vec![];
+    let c = rng.below(5) as i64; // count 0..4
+    t0.push(vec![2, c, 0]); // slot0 := new_many_iter(obj, c)
+    let take = rng.below((c + 2) as u64) as usize; // may ask for more than there is
+    let mut got = vec![];
+    for j in 0..take.min(4) {
+        t0.push(vec![3, 0, (1 + j) as i64]);
+        got.push(1 + j);
+    }
+    if rng.chance(1, 2) {
+        t0.push(vec![20]);
+        t0.push(vec![4, 0]); // abort(guard)
+        t0.push(vec![21]);
+    } else {
+        t0.push(vec![5, 0]); // drop(iter)
+    }
+    if rng.chance(1, 2) {
+        t0.push(vec![25, 1 + rng.below(4) as i64]);
+    }
+    // weak_many on one of the yielded owners
+    if !got.is_empty() && rng.chance(1, 2) {
+        let n = rng.below(3) as i64;
+        t0.push(vec![10, got[0] as i64, n, 5]);
+        for j in 0..n {
+            if rng.chance(1, 2) {
+                t0.push(vec![13, 5 + j, 7]); // upgrade one of them
+                t0.push(vec![7, 7]);
+            }
+        }
+        // shuffle-ish release
+        for j in (0..n).rev() {
+            t0.push(vec![12, 5 + j]);
+        }
+    }
+    while !got.is_empty() {
+        let i = rng.below(got.len() as u64) as usize;
+        let s0 = got.remove(i);
+        t0.push(vec![7, s0 as i64]);
+        if rng.chance(1, 3) {
+            t0.push(vec![25, 1 + rng.below(3) as i64]);
+        }
+    }
+    // new_many::<n> in a second object
+    let n = rng.below(4) as i64;
+    t0.push(vec![1, n, 1]);
+    for j in (0..n).rev() {
+        t0.push(vec![7, 1 + j]);
+    }
+    t0.push(vec![25, 4]);
+    let t1 = vec![vec![25, 1 + rng.below(3) as i64], vec![25, 2]];
+    Prog { g0: rng.below(20) as usize, ncells: 0, nobj: 0, threads: vec![(vec![], t0), (vec![], t1)] }
+}
+
 /// structured programs: thread 0 builds a chain (optionally a small tree) of fresh nodes, publishes the
 /// head in root cell 0, ages it, unlinks and drops it so that the recursive destruction runs inside the
 /// recorded part; the other threads read the structure, keep extra owners / weak pointers to inner
@@ -494,6 +648,28 @@ pub fn run_case(p: &Prog, rng: &mut Rng, script: Option<Vec<usize>>) -> (String,
     run_case_tuned(p, rng, script, None)
 }
 
+/// A directed schedule: run `watch` alone until it has passed yield site `site` for the `nth` time, then run
+/// `other` for `steps` steps, then `watch` to its end, then everybody else.
+#[derive(Clone, Copy)]
+pub struct Trigger {
+    pub watch: usize,
+    pub site: u32,
+    pub nth: usize,
+    pub other: usize,
+    pub steps: usize,
+}
+
+thread_local! {
+    static TRIGGER: std::cell::Cell<Option<Trigger>> = const { std::cell::Cell::new(None) };
+}
+
+pub fn run_case_triggered(p: &Prog, rng: &mut Rng, trig: Trigger, manual: usize) -> (String, Vec<String>) {
+    TRIGGER.with(|t| t.set(Some(trig)));
+    let r = run_case_tuned(p, rng, None, Some(manual));
+    TRIGGER.with(|t| t.set(None));
+    r
+}
+
 pub fn run_case_tuned(p: &Prog, rng: &mut Rng, script: Option<Vec<usize>>, manual: Option<usize>) -> (String, Vec<String>) {
     sched::install();
     let (off_next, off_other) = field_offsets();
@@ -573,8 +749,35 @@ pub fn run_case_tuned(p: &Prog, rng: &mut Rng, script: Option<Vec<usize>>, manua
     }
     drop(tx);
     let nt = p.threads.len();
+    let trig = TRIGGER.with(|t| t.get());
     let res = match script {
         Some(s) => sched::run(bodies, enabled, 400_000, &mut policy::scripted(s)),
+        None if trig.is_some() => {
+            let tg = trig.unwrap();
+            let mut fired_at: Option<usize> = None;
+            let mut chooser = move |r: &[usize], _k: usize, trace: &[sched::Step]| {
+                let pos = |t: usize| r.iter().position(|&q| q == t);
+                if fired_at.is_none() {
+                    let seen = trace.iter().filter(|st| st.tid == tg.watch && st.obs.iter().any(|o| o.0 == tg.site)).count();
+                    if seen >= tg.nth {
+                        fired_at = Some(trace.len());
+                    }
+                }
+                match fired_at {
+                    None => pos(tg.watch).unwrap_or(0),
+                    Some(at) => {
+                        let done = trace[at..].iter().filter(|st| st.tid == tg.other).count();
+                        if done < tg.steps {
+                            if let Some(i) = pos(tg.other) {
+                                return i;
+                            }
+                        }
+                        pos(tg.watch).unwrap_or(0)
+                    }
+                }
+            };
+            sched::run_observed(bodies, enabled, 400_000, &mut chooser)
+        }
         None => {
             if rng.chance(1, 2) {
                 sched::run(bodies, enabled, 400_000, &mut policy::uniform(rng))
@@ -1215,6 +1418,28 @@ fn run_op(_tid: usize, op: &[i64], slots: &mut Vec<Slot>, guards: &mut Vec<Guard
 
 /// Hand-written choreographies (program + schedule script), run before the random stream.
 /// Each is a regression witness of a defect found by this framework or a targeted attack on a property.
+/// directed choreographies (schedule given by a trigger instead of a fixed script)
+pub fn corpus_triggered() -> Vec<(&'static str, Prog, Trigger, usize)> {
+    let mut out = vec![];
+    // an upgrade lands between the cascade's load of a child's count word (site 115) and its CAS (site 130):
+    // the cascade must hand the child back to a deferred try_destruct, not destruct it (C05 / C01; finding D4)
+    for (name, weak_snapshot) in [("d4_upgrade_inside_cascade_window", false), ("d4_wsnap_upgrade_inside_cascade_window", true)] {
+        // objects: 1 = G (parent), 2 = P (child); thread 0 owns both, thread 1 holds a Weak to P
+        let t0 = (
+            vec![(1u8, 1usize), (1u8, 2usize)],
+            vec![vec![20], vec![31, 1, 0, 0, 1], vec![21], vec![25, 4], vec![7, 0], vec![25, 2], vec![25, 6], vec![25, 4]],
+        );
+        let t1 = if weak_snapshot {
+            (vec![(2u8, 2usize)], vec![vec![20], vec![19, 0, 1], vec![18, 1, 2], vec![15, 2, 3], vec![21], vec![7, 3], vec![12, 0], vec![25, 4]])
+        } else {
+            (vec![(2u8, 2usize)], vec![vec![13, 0, 1], vec![7, 1], vec![12, 0], vec![25, 4]])
+        };
+        let steps = if weak_snapshot { 6 } else { 3 };
+        out.push((name, Prog { g0: 4, ncells: 0, nobj: 2, threads: vec![t0, t1] }, Trigger { watch: 0, site: 115, nth: 2, other: 1, steps }, 64));
+    }
+    out
+}
+
 pub fn corpus() -> Vec<(&'static str, Prog, Vec<usize>, usize)> {
     let mut out = vec![];
     // D6: Weak::upgrade between its two additions while the pending destruction attempt runs (C01)
